@@ -10,6 +10,7 @@ CONSTANTS
   UnicodeDigits = FALSE
   NoRollback = FALSE
   StaleKey = FALSE
+  CopySharesParts = FALSE
 SPECIFICATION BndSpec
 INVARIANT AcceptExact
 INVARIANT DecomposeAgree
